@@ -96,11 +96,11 @@ def stage_b(run, tier, rng):
         jobs += [("fam", n, "full", i) for i in range(GG.family_size(n, GG.OBJ_KINDS_FULL))]
     if tier == "quick":
         jobs += [("fam", 3, "small", i) for i in range(GG.family_size(3, GG.OBJ_KINDS_SMALL))]
-        jobs += [("fam", 3, "full", rng.randrange(full3)) for _ in range(8000)]
+        jobs += [("fam", 3, "full", rng.randrange(full3)) for _ in range(4000)]
     else:
         jobs += [("fam", 3, "full", i) for i in range(full3)]
     size4 = GG.family_size(4, GG.OBJ_KINDS_SMALL)
-    n4 = 6000 if tier == "quick" else 150000
+    n4 = 4000 if tier == "quick" else 150000
     jobs += [("fam", 4, "small", rng.randrange(size4)) for _ in range(n4)]
     nrand = 2500 if tier == "quick" else 30000
     jobs += [("rand", rng.randrange(1 << 40)) for _ in range(nrand)]
@@ -140,7 +140,7 @@ def stage_b(run, tier, rng):
                         "(phase, unit, category, removal list as a set), the dependencies relation; and wf_graph of the abstraction"}
     run.exhaustive = True
     run.extra["stageB_family"] = {"n<=2": "exhaustive (5 object edge kinds, item, union member, wrapper; every target incl. self and forward; every failure position)",
-                                  "n=3": ("exhaustive with object edge kinds {prop, allof} + 8000 sampled of the full family" if tier == "quick" else "exhaustive, full family"),
+                                  "n=3": ("exhaustive with object edge kinds {prop, allof} + 4000 sampled of the full family" if tier == "quick" else "exhaustive, full family"),
                                   "n=4": f"{n4} sampled of {size4}", "random_graphs": nrand, "documents": len(docs_by_label)}
     for i in bad[:6]:
         try:
@@ -252,8 +252,8 @@ def positions(doc):
     for name, s in doc["components"]["schemas"].items():
         if object_body(s) is not None:
             for p in SCHEMA_POS:
-                if p == "addl" and object_body(s).get("additionalProperties") not in (None, True):
-                    continue
+                if p == "addl" and (object_body(s) is not s or s.get("additionalProperties") not in (None, True)):
+                    continue      # additionalProperties of an inline allOf member is not read by the generator at all
                 out.append(("schema", name, p))
             if isinstance(s, dict) and any(isinstance(m, dict) and "$ref" in m for m in s.get("allOf", []) or []):
                 out.append(("schema", name, "incompatible_allof"))
@@ -344,6 +344,14 @@ def insert(doc, pos, piece_name, tag="zz_bad"):
     return d, ("op", key)
 
 
+def names_schema(text, name):
+    return re.search(re.escape(AG.PREFIX + name) + r"(?![A-Za-z0-9_])", text) is not None
+
+
+def names_op(text, key):
+    return f"parsing {key} within" in text
+
+
 def refs_in(x, acc):
     if isinstance(x, dict):
         for k, v in x.items():
@@ -370,10 +378,6 @@ def dependants(doc, names):
             if any(r.startswith(REF) and r[len(REF):] in out for r in refs_in(s, set())):
                 out.add(n); changed = True
     return out
-
-
-def module_owners(gen_config_doc_parse):
-    pass
 
 
 def class_owner_map(doc):
@@ -413,15 +417,20 @@ def ops_of(doc):
 
 def c_worker(job):
     """one (D, b, position) case. Returns a dict with findings (lists of plain data)."""
-    label, doc, base_files, pos, piece, seed = job
-    res = {"label": label, "pos": list(pos), "piece": piece, "problems": [], "skipped": None}
+    label, doc, base_files, inserts, seed = job          # inserts: [(position, piece name)], one (quick) or two (thorough pairs)
+    pos, piece = inserts[0]
+    res = {"label": label, "pos": list(pos), "piece": piece, "inserts": [[list(p), pc] for p, pc in inserts], "problems": [], "skipped": None}
     try:
-        ins = insert(doc, pos, piece)
-        if ins is None:
-            res["skipped"] = "not applicable"
-            return res
-        d2, owner = ins
-        res["owner"] = list(owner)
+        d2, owners = doc, []
+        for k, (ps, pc) in enumerate(inserts):
+            ins = insert(d2, ps, pc, tag="zz_bad" if k == 0 else f"zz_bad{k + 1}")
+            if ins is None:
+                res["skipped"] = "not applicable"
+                return res
+            d2, ow = ins
+            owners.append(ow)
+        owner = owners[0]
+        res["owner"] = [list(o) for o in owners]
         with impl.Gen(d2) as g:
             if g.exc is not None:
                 res["problems"].append({"kind": "raises", "what": repr(g.exc)[:300]})
@@ -431,48 +440,51 @@ def c_worker(job):
             text = "\n".join(f"{h}\n{d or ''}" for _, h, d in diags)
             # ---- expected damage
             own_map, ab2 = class_owner_map(d2)
-            if owner[0] == "schema":
-                bad_comps = dependants(d2, {owner[1]})
-            else:
-                bad_comps = set()
+            own_map1, _ = class_owner_map(doc)
+            bad_comps = dependants(d2, {o[1] for o in owners if o[0] == "schema"}) if any(o[0] == "schema" for o in owners) else set()
             ops2 = ops_of(d2)
             ops1 = ops_of(doc)
             def op_touched(opjson):
                 return any(r.startswith(REF) and r[len(REF):] in bad_comps for r in refs_in(opjson, set()))
             res["bad_comps"] = sorted(bad_comps)
+            # ---- every inserted piece is invalid: a diagnostic must name its owner
+            for o in owners:
+                if not (names_schema(text, o[1]) if o[0] == "schema" else names_op(text, o[1])):
+                    res["problems"].append({"kind": "piece-undiagnosed", "owner": list(o), "diagnostics": [h for _, h, _ in diags][:6]})
+            orig_keys = {f"{ps[2].upper()} {ps[1]}" for ps, _ in inserts if ps[0] == "op"}
+            op_owner_keys = {o[1] for o in owners if o[0] == "op"}
             # ---- (i) byte identity of unrelated modules; (iii) diagnostics for what disappeared / changed
             for f, content in base_files.items():
-                if not f.endswith(".py") or f.endswith("__init__.py"):
-                    if f.endswith("__init__.py") and f in ("__init__.py", "api/__init__.py") and files2.get(f) != content:
+                if not f.endswith(".py"):
+                    if files2.get(f) != content:
                         res["problems"].append({"kind": "changed", "module": f})
                     continue
-                related = False
+                if f.endswith("__init__.py"):
+                    if f in ("__init__.py", "api/__init__.py") and files2.get(f) != content:
+                        res["problems"].append({"kind": "changed", "module": f})
+                    continue      # index files may list fewer / additional names
+                names, related = [], False
                 if f.startswith("models/"):
-                    owners = own_map.get(f[len("models/"):], None)
-                    owners1 = owners if owners is not None else set()
-                    related = bool(owners1 & bad_comps) if owners is not None else False
-                    names = sorted(owners1)
+                    owners = own_map1.get(f[len("models/"):], set())
+                    related = bool(owners & bad_comps)
+                    names = sorted(owners)
+                    named = any(names_schema(text, n) for n in names)
                 elif f.startswith("api/"):
                     key, opjson = ops1.get(f, (None, None))
-                    related = (owner[0] == "op" and key is not None and (key == owner[1] or key.split(" ")[0] == owner[1].split(" ")[0] and owner[1].startswith(key))) or (opjson is not None and op_touched(ops2.get(f, (None, opjson))[1]))
-                    if pos[0] == "op" and pos[3] == "optional_path" and key == f"{pos[2].upper()} {pos[1]}":
-                        related = True
+                    related = (key is not None and key in orig_keys) or (opjson is not None and op_touched(opjson))
                     names = [key]
+                    named = (key is not None and names_op(text, key)) or (key in orig_keys and any(names_op(text, k2) for k2 in op_owner_keys))
                 else:
-                    names = []
+                    named = False
                 if f not in files2:
                     if not related:
                         res["problems"].append({"kind": "lost", "module": f, "owners": names})
-                    # a diagnostic must name it
-                    named = any((REF.replace("#", "") + n) in text for n in names) if f.startswith("models/") else any(n and n in text for n in names)
-                    if pos[0] == "op" and pos[3] == "optional_path":
-                        named = named or (owner[1] in text)
                     if not named:
                         res["problems"].append({"kind": "undiagnosed", "module": f, "owners": names})
                 elif files2[f] != content:
                     if not related:
                         res["problems"].append({"kind": "changed", "module": f, "owners": names})
-                    elif f.startswith("api/") and not any(n and n in text for n in names):
+                    elif f.startswith("api/") and not named:
                         res["problems"].append({"kind": "undiagnosed-change", "module": f, "owners": names})
             # ---- (ii) survivors import and execute
             data, _ = impl.parse_doc(d2)
@@ -496,12 +508,22 @@ def c_worker(job):
             if isinstance(rr, dict):
                 res["problems"].append({"kind": "runner", "what": rr.get("fatal", "")[-400:]})
             else:
+                def missing_of(ei):
+                    m = re.search(r"No module named '[^']*\.models\.([A-Za-z0-9_]+)'", (ei or {}).get("msg", ""))
+                    return sorted(own_map.get(m.group(1) + ".py", [])) if m else []
                 for mod, ei in rr[0].get("failed", {}).items():
-                    res["problems"].append({"kind": "import", "module": mod, "exc": ei})
+                    rel = mod.split(".", 1)[1].replace(".", "/") + ".py" if "." in mod else mod
+                    if rel.startswith("models/"):
+                        src = sorted(own_map.get(rel[len("models/"):], []))
+                    else:
+                        src = sorted(r[len(REF):] for r in refs_in(ops2.get(rel, (None, {}))[1], set()) if r.startswith(REF))
+                    res["problems"].append({"kind": "import", "module": mod, "exc": ei, "src": src, "missing": missing_of(ei)})
                 for cname, r in zip(clss, rr[1:]):
                     ex = r.get("dec_exc") or r.get("enc_exc") or r.get("fatal_op")
                     if ex and ex.get("type") in ("ModuleNotFoundError", "ImportError", "NameError", "AttributeError"):
-                        res["problems"].append({"kind": "execute", "cls": cname, "exc": ex})
+                        from openapi_python_client import utils
+                        src = sorted(own_map.get(str(utils.PythonIdentifier(cname, cfg().field_prefix)) + ".py", []))
+                        res["problems"].append({"kind": "execute", "cls": cname, "exc": ex, "src": src, "missing": missing_of(ex)})
             # ---- data for the classification
             if res["problems"]:
                 ob = AG.observe(d2, cfg(), ab2)
@@ -518,9 +540,11 @@ def c_worker(job):
     return res
 
 
-def unrecorded_reach(edges, survivors, src):
-    """does component `src` reach a removed component through a path of edges that contains an unrecorded edge into it?"""
+def unrecorded_reach(edges, survivors, src, missing):
+    """does the surviving component `src` reach, through surviving components, an UNRECORDED edge into one of `missing` (removed)?"""
     surv = set(survivors)
+    if src not in surv:
+        return None
     adj = {}
     for s, k, t, rec in edges:
         adj.setdefault(s, []).append((t[len(AG.PREFIX):] if t and t.startswith(AG.PREFIX) else t, rec))
@@ -528,7 +552,7 @@ def unrecorded_reach(edges, survivors, src):
     while todo:
         x = todo.pop()
         for t, rec in adj.get(x, []):
-            if t not in surv and not rec and t is not None:
+            if t in missing and t not in surv and not rec:
                 return t
             if t in surv and t not in seen:
                 seen.add(t); todo.append(t)
@@ -548,27 +572,35 @@ def stage_c(run, tier, rng, replay_cases=None):
             base[label] = (doc, g.files(), len(g.diag()))
     if replay_cases is not None:
         for v in replay_cases:
-            if v.get("label") in base and "pos" in v:
-                jobs.append((v["label"], base[v["label"]][0], base[v["label"]][1], tuple(v["pos"]), v["piece"], 1))
+            if v.get("label") in base and "inserts" in v:
+                jobs.append((v["label"], base[v["label"]][0], base[v["label"]][1], [(tuple(p), pc) for p, pc in v["inserts"]], 1))
     else:
         pieces = list(BAD_SCHEMA)
+        k = 0
         for label, (doc, files, nd) in base.items():
-            ps = positions(doc)
-            k = 0
-            for pos in ps:
+            full = (tier != "quick" and not label.startswith("gen"))
+            for pos in positions(doc):
                 needs_piece = (pos[0] == "schema" and pos[2] in SCHEMA_POS) or (pos[0] == "op" and pos[3] in ("param", "body", "response"))
                 if not needs_piece:
-                    jobs.append((label, doc, files, pos, "n/a", rng.randrange(1 << 30)))
-                elif tier == "quick" and label not in ("chain", "union"):
-                    jobs.append((label, doc, files, pos, pieces[k % len(pieces)], rng.randrange(1 << 30))); k += 1
+                    pcs = ["n/a"]
+                elif full or (label in ("chain", "union") and pos[-1] == "prop"):
+                    pcs = pieces
                 else:
-                    for pc in pieces:
-                        jobs.append((label, doc, files, pos, pc, rng.randrange(1 << 30)))
-        if tier == "quick":
-            keep = [j for j in jobs if j[0] in ("chain", "union")]
-            rest = [j for j in jobs if j[0] not in ("chain", "union")]
-            rng.shuffle(rest)
-            jobs = keep[:] + rest[:max(0, 520 - len(keep))]
+                    pcs = [pieces[k % len(pieces)]]; k += 1
+                for pc in pcs:
+                    jobs.append((label, doc, files, [(pos, pc)], rng.randrange(1 << 30)))
+        if tier != "quick":
+            labels = list(base)
+            for _ in range(600):            # pairs of insertions
+                label = rng.choice(labels)
+                doc, files, nd = base[label]
+                ps = positions(doc)
+                a, b2 = rng.sample(ps, 2)
+                if a[0] == "op" and b2[0] == "op" and a[1:3] == b2[1:3]:
+                    continue
+                def pc_for(pos):
+                    return rng.choice(pieces) if ((pos[0] == "schema" and pos[2] in SCHEMA_POS) or (pos[0] == "op" and pos[3] in ("param", "body", "response"))) else "n/a"
+                jobs.append((label, doc, files, [(a, pc_for(a)), (b2, pc_for(b2))], rng.randrange(1 << 30)))
     print("stage C: %d base documents, %d (D, b, position) cases" % (len(base), len(jobs)))
     results = []
     with cf.ProcessPoolExecutor(max_workers=15) as ex:
@@ -588,20 +620,18 @@ def stage_c(run, tier, rng, replay_cases=None):
     for i, r in enumerate(results):
         if r["skipped"]:
             continue
-        run.note_case({"doc": r["label"], "pos": r["pos"], "piece": r["piece"]}, nontrivial=bool(r.get("n_diag")),
-                      kind=f"C:{r['pos'][0]}:{r['pos'][-1]}:{r['piece']}")
+        run.note_case({"doc": r["label"], "inserts": r["inserts"]}, nontrivial=bool(r.get("n_diag")),
+                      kind=(f"C:{r['pos'][0]}:{r['pos'][-1]}:{r['piece']}" if len(r["inserts"]) == 1 else "C:pair"))
         for p in r["problems"]:
-            payload = {"label": r["label"], "pos": r["pos"], "piece": r["piece"], "problem": p, "owner": r.get("owner"), "doc": r.get("doc")}
+            payload = {"label": r["label"], "inserts": r["inserts"], "problem": p, "owner": r.get("owner"), "doc": r.get("doc")}
             g = guard.get(i, {})
-            if p["kind"] in ("import", "execute") and g.get("union") is False:
-                # which component is the failing module about, and does it reach a removed class through an unrecorded edge?
-                m = re.search(r"models\.([a-z0-9_]+)'", json.dumps(p.get("exc", {})))
-                src_candidates = r.get("survivors", [])
+            if p["kind"] in ("import", "execute") and g.get("union") is False and p.get("missing"):
+                # the failing survivor must reach the class whose module is missing through an unrecorded (union member) edge
                 hit = None
-                for s in src_candidates:
-                    t = unrecorded_reach([tuple(e) for e in r["edges"]], r["survivors"], s)
+                for sname in p.get("src", []):
+                    t = unrecorded_reach([tuple(e) for e in r["edges"]], r["survivors"], sname, set(p["missing"]))
                     if t is not None:
-                        hit = (s, t); break
+                        hit = (sname, t); break
                 if hit and run.known_finding("union_dependency_unrecorded",
                         f"document '{r['label']}' + {r['piece']} at {r['pos']}: survivor {hit[0]} reaches removed {hit[1]} through a union member edge "
                         f"(no roots recorded); {p.get('module') or p.get('cls')}: {json.dumps(p.get('exc'))[:160]}"):
@@ -624,7 +654,7 @@ def run(run, tier, replay=None):
                         "stage C computes the allowed damage (owner + dependants over ALL reference edges) from the document's $ref text"]
     if replay:
         rp = json.load(open(replay))
-        cases = [v for v in rp["violations"] if "pos" in v]
+        cases = [v for v in rp["violations"] if "inserts" in v]
         if cases:
             stage_c(run, tier, rng, replay_cases=cases)
         if any(v.get("kind") == "correspondence" for v in rp["violations"]):
